@@ -315,8 +315,9 @@ func checkC09(c *Ctx) {
 			r.Ob("RESOLVED-ONLY", relName(f)+" marks the script resolved", t.Pos(mu.Pos()), okk, "retMap[name] may be set only after the loop over the script's use() calls ran to completion (every failing arm returns)")
 		})
 	}
+	copyFreshObligation(c, "COPY-APPEND")
 	r.Floor("BIND", 1)
-	r.Floor("COPY-APPEND", 2)
+	r.Floor("COPY-APPEND", 3)
 	r.Floor("CALLSITE-POS", 2)
 	r.Floor("RESOLVED-ONLY", 2)
 
